@@ -29,19 +29,21 @@ func isConfigFn(fn *ssa.Function) bool {
 
 func c16(r *core.Run) {
 	p := r.P
-	r.Explanation = "Lockset discipline on the library's shared structures (not a whole-program race proof): for every field of the service and of the work item that is written anywhere outside configuration functions and outside serve's initialisation (which is ordered before the workers by the go statements and before API users by the atomic state), all such accesses must hold the queue mutex, or all be sync/atomic operations, or fall under a named, reasoned exemption; the in-memory logger's buffer is only touched under the logger's mutex; the mock store's map is only touched by transaction methods (whose receivers exist only between Read/Write and Close, C11.K1) and the configuration helper; closures handed on from inside a loop do not capture a variable the loop re-assigns. Request/transaction objects are confined to one callback by the API contract and are not analysed. 'State touched only from a group's callbacks needs no user synchronisation' follows from C01 plus the mutex hand-over around every callback (C01.L2) and is an inference, not re-checked here."
+	r.Explanation = "Lockset discipline on the library's shared structures (not a whole-program race proof): for every field of the service and of the work item that is written anywhere outside configuration functions and outside serve's initialisation (which is ordered before the workers by the go statements and before API users by the atomic state), all such accesses must hold the queue mutex, or all be sync/atomic operations, or fall under a named, reasoned exemption; the in-memory logger's buffer is only touched under the logger's mutex; the mock store's map is only touched by transaction methods (whose receivers exist only between Read/Write and Close, C11.K1) and the configuration helper; closures handed on from inside a loop do not capture a variable the loop re-assigns. Request/transaction objects are confined to one callback by the API contract and are not analysed. 'State touched only from a group's callbacks needs no user synchronisation' follows from C01 plus the mutex hand-over around every callback (C01.L2); of C01's obligations the one a data race hinges on directly - check-then-register of a group's work item in one critical section (A2) - is re-checked here, the rest is an inference."
 	r.NotDecided = []string{"whole-program race freedom including user code and third-party modules", "races on per-request objects used from foreign goroutines against the documented contract"}
 	r.Assumptions = []string{"configuration and registration functions are called before Serve", "API goroutines other than the Serve caller start no earlier than OnServe", "sync.Mutex / sync/atomic give the usual happens-before edges"}
 
 	r.Rule("D1", "guarded-by discipline for Service and work-item fields: a field with a write outside configuration and initialisation is accessed only under the queue mutex, or only atomically, or is covered by a named exemption (guarded lazy default)", 6)
 	r.Rule("D2", "logger: the in-memory logger's buffer and log.Logger are used only with the logger's mutex held (configuration setters aside)", 3)
 	r.Rule("D3", "mock store: the resource map is accessed only by transaction methods (alive only between Read/Write and Close) and the configuration helper Add", 2)
+	r.Rule("A2", "group confinement (premise of 'state touched only from a group's callbacks needs no user synchronisation'): the lookup of a group's pending work item and the register/append that follows are one critical section (same obligations as C01.A2); otherwise two producers create two work items for one group, two workers run the group's callbacks at once and handler state races", 4)
 	r.Rule("V1", "no shared loop variable: a closure created in a loop and handed on does not capture a variable the loop re-assigns", 1)
 
 	a, e := queueEngine(r, "D1")
 	if e == nil {
 		return
 	}
+	c01Enqueue(r, a, e)
 	root := p.FuncsOfPkg("")
 	var firstGo ssa.Instruction
 	for _, c := range core.Calls(a.Serve) {
